@@ -67,7 +67,11 @@ def run_translate(spec, acc):
     os.environ["STEPUP_ROOT"] = root
     os.environ["HERE"] = here
     os.chdir(os.path.join(root, here))
-    workdirs = [".", "a", "a/b", "..", "../x", "./a/", os.path.join(root, "b"), outside]
+    # siblings of the root whose names extend the root's own name (proj-data next to proj)
+    sib = f"../{os.path.basename(root)}-data"
+    os.makedirs(os.path.join(root, sib, "a"), exist_ok=True)
+    workdirs = [".", "a", "a/b", "..", "../x", "./a/", os.path.join(root, "b"), outside, sib, sib + "/a",
+                f"../{os.path.basename(root)}"]
     try:
         for wd in workdirs:
             for base in paths(spec["n"]):
@@ -158,12 +162,13 @@ def outside_projects():
     """Steps whose working directory lies outside the project root (the project is `proj/` inside
     the scratch directory, the working directories are its siblings)."""
     out = []
-    for stepwd, up in (("../side", "../proj"), ("../side/deep", "../../proj"), ("sub/../../side", "../proj")):
+    for stepwd, up in (("../side", "../proj"), ("../side/deep", "../../proj"), ("sub/../../side", "../proj"),
+                       ("../proj-data", "../proj"), ("../proj-data/deep", "../../proj")):
         inp, outp = f"{up}/src.txt", f"{up}/out/o.txt"
         files = {
             "plan.py": script([["static", "src.txt"],
                                ["step", f"tr S {inp} -- {outp}", {"inp": [inp], "out": [outp], "workdir": stepwd}]]),
-            "src.txt": "src\n", "sub/": "", "../side/deep/": "",
+            "src.txt": "src\n", "sub/": "", "../side/deep/": "", "../proj-data/deep/": "",
         }
         out.append((f"outside|{stepwd}", files, ".", stepwd, inp, outp))
     return out
